@@ -93,6 +93,8 @@ KINDS = {
     'header_dict': ('select a["name"], a["id"]', {'header': True}),
     'header_dict_update': ('update set a["name"] = "N"', {'header': True}),
     'header_dict_except': ('select * except a["name"]', {'header': True}),
+    'direct_vars': ('select key, sort_key where out_fields != key', {'header_names': ['key', 'sort_key', 'out_fields'], 'normalize': False}),
+    'direct_vars_nr': ('select NR, name where stop_flag == name or True', {'header_names': ['stop_flag', 'name', 'record_a'], 'normalize': False}),
     'join_two_keys': ('select a1, b2 left join B on a2 == b1 and a1 == b3', {'join': True, 'join_b3_from_a1': True}),
     'err_join_table_missing': ('select a1, b2 join B on a2 == b1', {'join_missing': True}),
 }
@@ -139,6 +141,10 @@ def gen_op(rng, kind=None, api=None, max_rows=6, pool=40):
             op['header'] = [{'name': 'title', 'id': 'ident'}.get(h, h) if rng.random() < 0.6 else h for h in op['header']]
     if opt.get('init'):
         op['init'] = opt['init']
+    if opt.get('header_names'):
+        op['header'] = list(opt['header_names'])
+        op['normalize'] = False
+        op['api'] = 'table'
     if op['api'] == 'csviter' and (opt.get('ragged') or kind in ('star', 'except', 'err_unknown_join') or not rows):
         op['api'] = 'iter'
     if opt.get('join_missing') and op['api'] in ('df', 'sqlite', 'csviter'):
@@ -306,7 +312,7 @@ def run_op(t, op, baton=None, tid=0):
             if op.get('join_missing'):
                 t.engine.query(op['query'], t.engine.TableIterator(rows, header), t.engine.TableWriter(out), warnings, t.engine.ListTableRegistry([]))
                 return norm(['ok', out, None, warnings])
-            t.engine.query_table(op['query'], rows, out, warnings, join_rows, header, jheader, out_header, True, op.get('init', ''))
+            t.engine.query_table(op['query'], rows, out, warnings, join_rows, header, jheader, out_header, op.get('normalize', True), op.get('init', ''))
             return norm(['ok', out, out_header, warnings])
         if api == 'df':
             import pandas
@@ -388,14 +394,29 @@ def module_state(t):
     return [bool(t.engine.debug_mode), bool(t.csv.debug_mode)]
 
 
+def process_state():
+    """Interpreter-wide settings a library query has no business changing (compared before / after a history)."""
+    import locale
+    import signal
+    import warnings
+    return {'sys_path': list(sys.path), 'recursion_limit': sys.getrecursionlimit(), 'cwd': os.getcwd(),
+            'sigpipe': repr(signal.getsignal(signal.SIGPIPE)), 'sigint': repr(signal.getsignal(signal.SIGINT)),
+            'locale': list(locale.getlocale()), 'warning_filters': len(warnings.filters),
+            'stdout_is_original': sys.stdout is sys.__stdout__ or not getattr(sys.stdout, 'closed', False),
+            'environ': core.digest(sorted(os.environ.items()))}
+
+
 def child_history(sc):
     t = core.load_tree()
     outs = []
     states = []
+    before = process_state()
     for op in sc['ops']:
         outs.append(run_op(t, op))
         states.append(module_state(t))
-    return {'outcomes': outs, 'states': states}
+    after = process_state()
+    changed = sorted(k for k in before if before[k] != after[k])
+    return {'outcomes': outs, 'states': states, 'process_state_changed': changed}
 
 
 def child_enumerate(sc):
@@ -577,6 +598,8 @@ def execute(sc):
             if obs['states'][i] != [False, False]:
                 res.update(verdict='violation', oracle='module_state', detail={'op_index': i, 'kind': sc['ops'][i]['kind'], 'debug_flags': obs['states'][i]})
                 break
+        if res['verdict'] == 'ok' and obs.get('process_state_changed'):
+            res.update(verdict='violation', oracle='process_state', detail={'changed': obs['process_state_changed'], 'kind': sc['ops'][-1]['kind'], 'history': [o['kind'] for o in sc['ops']]})
         res['digest'] = core.digest([obs, refs])
         return res
     if sc.get('enumerate'):
